@@ -147,6 +147,17 @@ def floatDecode (eb mb : Nat) (bits : Nat) : Option (Int × Int) :=
       if e = 0 then (mant, 1 - bias - mb) else (mant + 2 ^ mb, (e : Int) - bias - mb)
     some (if signBit % 2 = 1 then -(m : Int) else (m : Int), ex)
 
+/-- the tail shared by `simplest_from_f32/f64/float`: the simplest fraction strictly inside
+    `(lo, hi)`, replaced by an end point that is allowed (`incl…`) and simpler -/
+def pickSimplest (simpler : Q → Q → Bool) (lo hi : Q) (inclLo inclHi : Bool) :
+    Except PanicKind (Option Q) := do
+  match ← simplestIn lo hi with
+  | none => pure none
+  | some s =>
+    let s := if inclLo ∧ simpler lo s then lo else s
+    let s := if inclHi ∧ simpler hi s then hi else s
+    pure (some s)
+
 /-- the exact rounding interval of the float `man · 2^exp` (`man ≠ 0`, magnitude `m = |man|`)
     under round-to-nearest-even, as a pair of positive rationals `(lo, hi)` for the magnitude:
     half an ulp to each side, except below a power of two (`m = 2^mb`, not the least exponent)
@@ -179,12 +190,115 @@ def simplestFromFloat (simpler : Q → Q → Bool) (eb mb : Nat) (bits : Nat) :
       let iv := roundingInterval mb (1 - bias - mb) man.natAbs exp
       let lo ← reduce iv.1
       let hi ← reduce iv.2
-      match ← simplestIn lo hi with
+      match ← pickSimplest simpler lo hi (decide (man.natAbs % 2 = 0)) (decide (man.natAbs % 2 = 0)) with
       | none => pure none
-      | some s =>
-        let s := if man.natAbs % 2 = 0 ∧ simpler lo s then lo else s
-        let s := if man.natAbs % 2 = 0 ∧ simpler hi s then hi else s
-        pure (some (some (mulSign s (decide (man < 0)))))
+      | some s => pure (some (some (mulSign s (decide (man < 0)))))
+
+-- ------------------------------------------------------------------ simplest_from_float (FBig)
+
+/-- rounding modes of dashu-float (`float/src/round.rs mod mode`) -/
+inductive RMode where
+  | zero | away | up | down | halfAway | halfEven
+  deriving Repr, DecidableEq
+
+/-- number of base-`b` digits of `n` (0 for 0); `b ≥ 2` -/
+def digitsB (b : Nat) : Nat → Nat → Nat
+  | 0, _ => 0
+  | fuel + 1, n => if n = 0 then 0 else 1 + digitsB b fuel (n / b)
+
+def powQ (b : Nat) (e : Int) : Q := if e ≥ 0 then ⟨(b : Int) ^ e.toNat, 1⟩ else ⟨1, b ^ (-e).toNat⟩
+
+/-- `m · b^e` as a (not yet reduced) pair -/
+def scaleQ (m : Int) (b : Nat) (e : Int) : Q :=
+  if e ≥ 0 then ⟨m * (b : Int) ^ e.toNat, 1⟩ else ⟨m, b ^ (-e).toNat⟩
+
+/-- the ways in which the code at the pinned commit deviates from the required behaviour of
+    `simplest_from_float` (all `false` = required; all `true` = the code):
+    * `conjSimpler`: inclusive end points are compared with the defective `is_simpler_than`;
+    * `uniformUlp`: the spacing below a power of the base is taken to be a full ulp
+      (`ErrorBounds` uses `f.ulp()` for both sides);
+    * `ceilHalf`: half an ulp is `⌈b/2⌉·b^(e-1)`, more than half for an odd base
+      (`ErrorBounds for HalfAway/HalfEven`: "ceil division");
+    * `oddIncl`: `HalfEven` includes both ties iff the stored significand is ODD
+      (`f.repr.significand.bit(0)`) instead of the per-tie parity rule;
+    * `panicUnlimited`: `ErrorBounds for Away/Up/Down` call `f.ulp()` also for precision 0, which
+      panics, instead of returning `(0, 0, true, true)` as the trait documents;
+    * `zeroEndpoint`: `simplest_in(negative, 0)` returns 0 (finding `simplest-in-zero-endpoint`);
+      reachable here only together with `uniformUlp` (precision 1, significand 1). -/
+structure Quirks where
+  conjSimpler : Bool
+  uniformUlp : Bool
+  ceilHalf : Bool
+  oddIncl : Bool
+  panicUnlimited : Bool
+  zeroEndpoint : Bool
+  deriving Repr, DecidableEq
+
+def Quirks.none : Quirks := ⟨false, false, false, false, false, false⟩
+def Quirks.code : Quirks := ⟨true, true, true, true, true, true⟩
+
+/-- the set of real numbers that round to the float `± S·b^e` (`S` the `p`-digit significand of
+    the magnitude) under a mode, as an interval of MAGNITUDES in units of `b^(e-1)/2`
+    (so that half of the finer spacing below a power of the base is an integer):
+    `(loNum, hiNum, inclLo, inclHi)`, value `= num · b^(e-1) / 2`.
+    * spacing above `|f|` is `b^e`; below it is `b^e`, or `b^(e-1)` when `S = b^(p-1)`;
+    * directed modes: towards zero in magnitude `[ |f|, |f| + above )`, away `( |f| − below, |f| ]`;
+    * half modes: half a spacing to each side; a tie is included iff it rounds to `f`:
+      `HalfAway` — the lower tie does, the upper does not; `HalfEven` — iff the kept integer is even
+      (`S`, or `b^p` for the lower tie below a power of the base). -/
+def roundingSet (k : Quirks) (mode : RMode) (b p : Nat) (negative : Bool) (S : Nat)
+    (signifOdd : Bool) : Int × Int × Bool × Bool :=
+  let isPow := S = b ^ (p - 1) ∧ ¬ k.uniformUlp
+  let c : Int := 2 * b * S                       -- |f|
+  let above : Int := 2 * b                       -- b^e
+  let below : Int := if isPow then 2 else 2 * b  -- b^(e-1) or b^e
+  let halfAbove : Int := if k.ceilHalf then 2 * ((b + 1) / 2 : Nat) else above / 2
+  let halfBelow : Int := if k.ceilHalf then 2 * ((b + 1) / 2 : Nat) else below / 2
+  let towardZero : Int × Int × Bool × Bool := (c, c + above, true, false)
+  let awayZero : Int × Int × Bool × Bool := (c - below, c, false, true)
+  match mode with
+  | .zero => towardZero
+  | .away => awayZero
+  | .up => if negative then towardZero else awayZero
+  | .down => if negative then awayZero else towardZero
+  | .halfAway => (c - halfBelow, c + halfAbove, true, false)
+  | .halfEven =>
+    if k.oddIncl then (c - halfBelow, c + halfAbove, signifOdd, signifOdd)
+    else (c - halfBelow, c + halfAbove,
+      decide ((if isPow then b ^ p else S) % 2 = 0), decide (S % 2 = 0))
+
+/-- `RBig::simplest_from_float` with deviation switches `k` (`Quirks.none`: REQUIRED behaviour —
+    the simplest fraction among those that round to the float `signif · b^exp` at precision `p`
+    under `mode`; `p = 0`: the number itself).  `simplerReq` / `simplerCode`: the documented
+    order and the regenerated `is_simpler_than`.  `none`: malformed input (more digits than the
+    precision). -/
+def simplestFromFBig (k : Quirks) (simplerReq simplerCode : Q → Q → Bool) (mode : RMode)
+    (b : Nat) (signif exp : Int) (p : Nat) : Except PanicKind (Option Q) :=
+  let simpler := if k.conjSimpler then simplerCode else simplerReq
+  if signif = 0 then .ok (some Q.zero)
+  else if p = 0 then
+    if k.panicUnlimited ∧ (mode = .away ∨ mode = .up ∨ mode = .down) then
+      .error .unlimitedPrecision
+    else (reduce (scaleQ signif b exp)).map some
+  else
+    let n := digitsB b (signif.natAbs + 1) signif.natAbs
+    if n > p then .ok none
+    else do
+      let S := signif.natAbs * b ^ (p - n)
+      let e : Int := exp - (p - n : Nat)
+      let negative := decide (signif < 0)
+      let (loN, hiN, inclLo, inclHi) :=
+        roundingSet k mode b p negative S (decide (signif.natAbs % 2 = 1))
+      -- value = num · b^(e-1) / 2
+      let mk (num : Int) : Q :=
+        let q := scaleQ num b (e - 1)
+        ⟨q.num, q.den * 2⟩
+      let lo ← reduce (mk loN)
+      let hi ← reduce (mk hiN)
+      if k.zeroEndpoint ∧ negative ∧ lo.num = 0 then pure (some Q.zero) else
+      match ← pickSimplest simpler lo hi inclLo inclHi with
+      | none => pure none
+      | some s => pure (some (mulSign s negative))
 
 /-- the documented order of `RBig::is_simpler_than` / `RBig::simplest_in`: smaller denominator
     first, then smaller numerator magnitude, then positive before negative (lexicographic) -/
